@@ -534,9 +534,11 @@ impl World for JoinWorld {
         // unit scale (swarm): the same history in seconds, minutes or hours
         let scale = *rng.pick(&[1u64, 1, 1, 1, 60, 3600]);
         let window_secs = window_secs * scale;
-        let scale_ev = |v: Vec<Ev>| -> Vec<Ev> { v.into_iter().map(|e| Ev { ts: e.ts * scale, ..e }).collect() };
+        // epoch offset (swarm): stamps are epoch seconds in real use (~1.7e9), close to 2^31; also 2^32 and beyond
+        let offset = *rng.pick(&[0u64, 0, 0, 1_700_000_000, (1 << 31) - 5, (1u64 << 32) - 5, 1u64 << 40]);
+        let scale_ev = |v: Vec<Ev>| -> Vec<Ev> { v.into_iter().map(|e| Ev { ts: e.ts * scale + offset, ..e }).collect() };
         let (left, right) = (scale_ev(left), scale_ev(right));
-        let schedule: Vec<Step> = schedule.into_iter().map(|s| if let Step::Wm(w) = s { Step::Wm(w * scale as i64) } else { s }).collect();
+        let schedule: Vec<Step> = schedule.into_iter().map(|s| if let Step::Wm(w) = s { Step::Wm(w * scale as i64 + offset as i64) } else { s }).collect();
         JoinTrace {
             hash_seed,
             window_secs,
@@ -565,6 +567,9 @@ impl World for JoinWorld {
             obs.count("probe.more_than_1024_events");
         } else if t.left.len() + t.right.len() > 16 {
             obs.count("probe.more_than_16_events");
+        }
+        if t.left.iter().chain(&t.right).any(|e| e.ts >= 1 << 31) {
+            obs.count("probe.timestamps_beyond_2_to_the_31");
         }
         if t.window_secs >= 60 {
             obs.count("probe.window_of_a_minute_or_more");
@@ -668,6 +673,23 @@ impl World for JoinWorld {
             let mut c = t.clone();
             c.window_frac_ms = 0;
             out.push(c);
+        }
+        // the whole history closer to zero
+        if let Some(m) = t.left.iter().chain(&t.right).map(|e| e.ts).min() {
+            for off in [m, m / 2, 1u64 << 31] {
+                if off > 0 && off <= m {
+                    let mut c = t.clone();
+                    for e in c.left.iter_mut().chain(c.right.iter_mut()) {
+                        e.ts -= off;
+                    }
+                    for s in c.schedule.iter_mut() {
+                        if let Step::Wm(w) = s {
+                            *w -= off as i64;
+                        }
+                    }
+                    out.insert(0, c);
+                }
+            }
         }
         // the whole history in a smaller unit
         for k in [3600u64, 60] {
